@@ -372,77 +372,40 @@ impl DebugInformation {
             for (unit_idx, file_lines) in &files {
                 let unit = self.unit_ensure(*unit_idx);
 
+                // The first statement row of the line in every run of rows of that line (rows
+                // are ordered by address), a prologue_end row of the run is preferred.
+                // Subprograms are told apart below: every function, instantiation or inlined
+                // copy that contains the line gets its own place.
                 let mut suitable_places_in_unit = vec![];
 
                 let mut i = 0;
                 while i < file_lines.len() {
                     let mut line_idx = file_lines[i];
-                    let next_line_row = unit.line(line_idx);
-
-                    if suitable_places_in_unit.is_empty() {
-                        // no places found at this point,
-                        // try to find the closest place to a target line
-                        if next_line_row.line != needle_line || !next_line_row.is_stmt() {
-                            i += 1;
-                            continue;
-                        }
-
-                        // now check that there is no prolog end in neighborhood line rows,
-                        // if there is one then take it.
-                        // This sets priority of line rows with PE over other
-                        // line rows at this line as a breakpoint candidate
-                        let mut ahead_idx = i + 1;
-                        loop {
-                            let Some(&ahead_line_idx) = file_lines.get(ahead_idx) else {
-                                break;
-                            };
-
-                            let line_row = unit.line(ahead_line_idx);
-                            if line_row.line != next_line_row.line || !line_row.is_stmt() {
-                                break;
-                            }
-
-                            if line_row.prolog_end() {
-                                line_idx = ahead_line_idx;
-                                i = ahead_idx;
-                                break;
-                            }
-                            ahead_idx += 1;
-                        }
-
-                        if let Some(place) = unit.find_place_by_idx(line_idx) {
-                            suitable_places_in_unit.push(place);
-                        }
-                    } else {
-                        // At least one line is found,
-                        // now try to find lines with the same col and row
-                        // as in found place in source code.
-                        // This covers a case when compiler
-                        // generates multiple representations of a single line, for example, when
-                        // source code line in a part of a template function.
-                        let line = suitable_places_in_unit[0].line_number;
-                        let col = suitable_places_in_unit[0].column_number;
-                        let pe = suitable_places_in_unit[0].prolog_end;
-                        let eb = suitable_places_in_unit[0].epilog_begin;
-                        let es = suitable_places_in_unit[0].end_sequence;
-
-                        if next_line_row.line != line
-                            || next_line_row.column != col
-                            || next_line_row.prolog_end() != pe
-                            || next_line_row.epilog_begin() != eb
-                            || next_line_row.end_sequence() != es
-                            || !next_line_row.is_stmt()
-                        {
-                            i += 1;
-                            continue;
-                        }
-
-                        if let Some(place) = unit.find_place_by_idx(line_idx) {
-                            suitable_places_in_unit.push(place);
-                        }
+                    let row = unit.line(line_idx);
+                    if row.line != needle_line || !row.is_stmt() || row.end_sequence() {
+                        i += 1;
+                        continue;
                     }
 
-                    i += 1;
+                    let mut ahead_idx = i + 1;
+                    while let Some(&ahead_line_idx) = file_lines.get(ahead_idx) {
+                        let ahead_row = unit.line(ahead_line_idx);
+                        if ahead_row.line != needle_line
+                            || !ahead_row.is_stmt()
+                            || ahead_row.end_sequence()
+                        {
+                            break;
+                        }
+                        if ahead_row.prolog_end() && !unit.line(line_idx).prolog_end() {
+                            line_idx = ahead_line_idx;
+                        }
+                        ahead_idx += 1;
+                    }
+                    i = ahead_idx;
+
+                    if let Some(place) = unit.find_place_by_idx(line_idx) {
+                        suitable_places_in_unit.push(place);
+                    }
                 }
 
                 for suitable_place in suitable_places_in_unit {
